@@ -284,17 +284,42 @@ async fn run_plan_async(pc: &PlanCase, fx: &Fixture) -> CaseResult {
     };
     let codec_b = NameCodec { providers: b.providers.clone() };
     let ctxt = || format!("\n  source={:?} optimized={} wire={:?}\n  sql: {sql}\n  original plan:\n{}", fx.source, pc.optimized, pc.wire, plan.display_indent_schema());
+    // recorded finding `empty-relation-schema-dropped`: EmptyRelation travels without its schema
+    let mut schema_empty_rel = false;
+    let _ = plan.apply_with_subqueries(|n| {
+        if let LogicalPlan::EmptyRelation(e) = n {
+            if !e.schema.fields().is_empty() {
+                schema_empty_rel = true;
+            }
+        }
+        Ok(TreeNodeRecursion::Continue)
+    });
     let back = match decode_plan(&bytes, pc.wire, &b.ctx, if use_codec { Some(&codec_b) } else { None }) {
         Ok(p) => p,
+        Err(e) if schema_empty_rel && err_class(&e) == ErrClass::SchemaError => {
+            return known_violation(&["empty-relation-schema-dropped"], format!("plan encodes but does not decode: {}{}", err_text(&e), ctxt())).labels(labels);
+        }
         Err(e) => return CaseResult::violation(format!("plan encodes but does not decode: {}{}", err_text(&e), ctxt())).labels(labels),
     };
     let t0 = plan.display_indent_schema().to_string();
     let t1 = back.display_indent_schema().to_string();
     if t0 != t1 {
-        if flatten_unions(&t0) == flatten_unions(&t1) {
-            known.push("union-nary-decoded-nested");
-        } else {
-            return CaseResult::violation(format!("decoded plan differs in its textual form: {}{}\n  decoded plan:\n{t1}", first_diff(&t0, &t1), ctxt())).labels(labels);
+        if schema_empty_rel {
+            return known_violation(&["empty-relation-schema-dropped"], format!("decoded plan differs in its textual form: {}{}\n  decoded plan:\n{t1}", first_diff(&t0, &t1), ctxt())).labels(labels);
+        }
+        // recorded finding `limit-fetch-none-decoded-as-max`: `fetch=None` travels as i64::MAX and comes back as Some(i64::MAX)
+        let mut t1n = t1.clone();
+        if t1n.contains("fetch=9223372036854775807") && !t0.contains("fetch=9223372036854775807") {
+            t1n = t1n.replace("fetch=9223372036854775807", "fetch=None");
+            known.push("limit-fetch-none-decoded-as-max");
+        }
+        if t0 != t1n {
+            // recorded finding `union-nary-decoded-nested`
+            if flatten_unions(&t0) == flatten_unions(&t1n) {
+                known.push("union-nary-decoded-nested");
+            } else {
+                return CaseResult::violation(format!("decoded plan differs in its textual form: {}{}\n  decoded plan:\n{t1}", first_diff(&t0, &t1), ctxt())).labels(labels);
+            }
         }
     }
     // expressions of the plan, one by one
@@ -456,6 +481,22 @@ fn scalar_same(a: &ScalarValue, b: &ScalarValue) -> Result<&'static str, String>
     }
 }
 
+/// Union or run-end-encoded data BELOW the top level of a nested type: such scalars travel as Arrow IPC of a
+/// (possibly sliced) one-row array, and arrow's IPC writer/reader mishandles these children (recorded finding
+/// `nested-scalar-ipc-union-or-ree-child`).
+fn exotic_child(dt: &DType, top: bool) -> bool {
+    use DType::*;
+    match dt {
+        Union(fs, _) => !top || fs.iter().any(|(_, _, d)| exotic_child(d, false)),
+        RunEndEncoded(_, v) => !top || exotic_child(v, false),
+        Dictionary(_, v) => exotic_child(v, top),
+        List(c) | LargeList(c) | ListView(c) | LargeListView(c) | FixedSizeList(c, _) => exotic_child(c, false),
+        Struct(fs) => fs.iter().any(|(_, d)| exotic_child(d, false)),
+        Map(k, v) => exotic_child(k, false) || exotic_child(v, false),
+        _ => false,
+    }
+}
+
 fn nonfinite_float(v: &data::Value) -> bool {
     match v {
         data::Value::Float(f) => !f.is_finite(),
@@ -552,7 +593,18 @@ fn run_inner(case: &Case) -> CaseResult {
     match case {
         Case::Plan(p) => run_plan(p).label("case:plan"),
         Case::Expr(e) => run_expr(e).label("case:expr"),
-        Case::Scalar(s) => run_scalar(s).label("case:scalar"),
+        Case::Scalar(s) => {
+            let r = run_scalar(s);
+            let r = match &r.outcome {
+                Outcome::Violation(m) if !m.starts_with("[known:") && exotic_child(&s.dtype, true) => {
+                    let mut k = known_violation(&["nested-scalar-ipc-union-or-ree-child"], m.clone());
+                    k.labels = r.labels.clone();
+                    k
+                }
+                _ => r,
+            };
+            r.label("case:scalar")
+        }
     }
 }
 
